@@ -31,7 +31,7 @@ if os.path.exists(md):
     txt = open(md).read()
     m = re.search(r"(?is)(trigger|needs|manifest)[^\n]*\n(.{0,600})", txt)
     needs = (m.group(2) if m else txt[:600]).strip()
-meta = {"property": prop, "needs_to_manifest": needs[:600], "round": 4,
+meta = {"property": prop, "needs_to_manifest": needs[:600], "round": int(os.environ.get("ROUND", "4")),
         "source": "independent sub-agent given only the property text and a scratch worktree",
         "verified_by_me": "tools/verify_mutant.sh: builds, existing suite passes with the change, TestDemo fails with it and passes without it",
         "demo_files": [f for f in demos if f.endswith("_test.go")]}
